@@ -46,6 +46,28 @@ fn sub_small(h: &str, k: u8) -> String {
     hex(&b)
 }
 
+/// big-endian block +/- 2^bit (wrapping at the block size)
+fn addsub_pow2(block: &[u8], bit: usize, minus: bool) -> Vec<u8> {
+    let mut b = block.to_vec();
+    let n = b.len();
+    let mut i = n - 1 - bit / 8;
+    let mut carry = 1i32 << (bit % 8);
+    loop {
+        let v = if minus { b[i] as i32 - carry } else { b[i] as i32 + carry };
+        if (0..256).contains(&v) {
+            b[i] = v as u8;
+            break;
+        }
+        b[i] = v.rem_euclid(256) as u8;
+        carry = 1;
+        if i == 0 {
+            break;
+        }
+        i -= 1;
+    }
+    b
+}
+
 fn pow2(k: usize) -> String {
     let mut b = [0u8; 32];
     b[31 - k / 8] = 1 << (k % 8);
@@ -80,6 +102,11 @@ pub fn pools() -> &'static Pools {
         ];
         for _ in 0..16 {
             fr_vals.push(hex(&fr_be(&fr_from_rng(&mut rng))));
+        }
+        // just below r in every limb (valid, must be accepted and round-trip)
+        let rb = unhex(R_HEX).unwrap();
+        for bit in [32usize, 64, 128, 192, 248] {
+            fr_vals.push(hex(&addsub_pow2(&rb, bit, true)));
         }
         let mut fq12_vals: Vec<String> = vec!["zero".into(), "one".into(), "qm1".into()];
         for i in 0..12 {
@@ -201,6 +228,19 @@ pub fn nonreduced_blocks(len: usize) -> Vec<(&'static str, Vec<u8>)> {
     }
     v.push(("top_bits", top));
     v.push(("all_ones", vec![0xff; len]));
+    // above the modulus by one unit of a middle limb: the top limb (and every limb above the changed one)
+    // still equals the modulus's
+    v.push(("modulus_plus_2^32", addsub_pow2(&m, 32, false)));
+    v.push(("modulus_plus_2^64", addsub_pow2(&m, 64, false)));
+    v.push(("modulus_plus_2^128", addsub_pow2(&m, 128, false)));
+    if len == 32 {
+        let mut x = vec![0xffu8; 32];
+        x[0] = 0x7f; // 2^255 - 1
+        v.push(("2^255-1", x));
+        v.push(("2^255_plus_1", addsub_pow2(&{ let mut t = vec![0u8; 32]; t[0] = 0x80; t }, 0, false)));
+    } else {
+        v.push(("modulus_plus_2^320", addsub_pow2(&m, 320, false)));
+    }
     v
 }
 
